@@ -7,6 +7,7 @@ package sim
 
 import (
 	"fmt"
+	"io"
 	"reflect"
 
 	hessian "github.com/vogo/gohessian"
@@ -28,36 +29,46 @@ var c15EntryNames = []string{"Encoder.WriteTo", "Encoder.WriteObject(stream)", "
 // accepts without a fault.
 func c15Domain() Domain {
 	return Domain{EmptyStringElems: true, NilPtrElems: true, ZeroTimeElems: true, BigStrings: true, BigBinaries: true,
-		FarDates: true, AllDoubles: true, MaxListLen: 12, MaxMapLen: 5}
+		FarDates: true, AllDoubles: true, OddMaps: true, MaxListLen: 12, MaxMapLen: 5}
 }
 
 // c15Encode runs the stream through the entry point against w and returns the error of each call.
-func c15Encode(entry int, vals []interface{}, w *FaultyWriter) (errs []error, firedBefore []int) {
+func c15Encode(entry int, vals []interface{}, fw *FaultyWriter, rich bool) (errs []error, firedBefore []int) {
+	var w interface {
+		Write([]byte) (int, error)
+	} = fw
+	if rich {
+		w = &RichFaultyWriter{FaultyWriter: fw}
+	}
+	return c15EncodeTo(entry, vals, fw, w)
+}
+
+func c15EncodeTo(entry int, vals []interface{}, fw *FaultyWriter, w io.Writer) (errs []error, firedBefore []int) {
 	errs = make([]error, len(vals))
 	firedBefore = make([]int, len(vals)+1)
 	switch entry {
 	case c15EncWriteTo:
 		e := hessian.NewEncoder(nil, ZooNameMap)
 		for i, v := range vals {
-			firedBefore[i] = w.Fired
+			firedBefore[i] = fw.Fired
 			errs[i] = e.WriteTo(w, v)
 		}
 	case c15EncWriteObject:
 		e := hessian.NewEncoder(w, ZooNameMap)
 		for i, v := range vals {
-			firedBefore[i] = w.Fired
+			firedBefore[i] = fw.Fired
 			errs[i] = e.WriteObject(v)
 		}
 	case c15SerWriteTo:
 		s := hessian.NewSerializer(ZooTypeMap, ZooNameMap)
 		for i, v := range vals {
-			firedBefore[i] = w.Fired
+			firedBefore[i] = fw.Fired
 			errs[i] = s.WriteTo(w, v)
 		}
 	case c15SerWrite:
 		s := hessian.NewSerializer(ZooTypeMap, ZooNameMap)
 		for i, v := range vals {
-			firedBefore[i] = w.Fired
+			firedBefore[i] = fw.Fired
 			if i == 0 {
 				errs[i] = s.WriteTo(w, v)
 			} else {
@@ -65,7 +76,7 @@ func c15Encode(entry int, vals []interface{}, w *FaultyWriter) (errs []error, fi
 			}
 		}
 	}
-	firedBefore[len(vals)] = w.Fired
+	firedBefore[len(vals)] = fw.Fired
 	return
 }
 
@@ -119,7 +130,11 @@ func runC15(ch *Choices, cfg *RunCfg) (o *Outcome) {
 	// fault-free control: count the writes, make sure the value is in the encoder's domain
 	resetClock(0)
 	ctl := &FaultyWriter{site: callerSite}
-	errs, _ := c15Encode(entry, vals, ctl)
+	rich := ch.Intn(3, "writer.rich") == 1
+	if rich {
+		o.Probes["destination also offers WriteByte / WriteString / Flush"]++
+	}
+	errs, _ := c15Encode(entry, vals, ctl, rich)
 	for _, e := range errs {
 		if e != nil {
 			o.Skipped = true
@@ -147,7 +162,7 @@ func runC15(ch *Choices, cfg *RunCfg) (o *Outcome) {
 			}
 			resetClock(0)
 			w := &FaultyWriter{FaultAt: k, Kind: kind}
-			errs, fb := c15Encode(entry, vals, w)
+			errs, fb := c15Encode(entry, vals, w, rich)
 			o.Steps += clock.steps
 			o.Evals++
 			if w.Fired == 0 {
